@@ -50,6 +50,7 @@ type Profile struct {
 	PForward        int      // percent of follow-up messages after a registration that use that registration (forward reference)
 	PMultiTarget    int      // percent of txs starting with a storage purchase that go on purchasing for other targets (neighbours, nonexistent ones)
 	PQuorumConflict int      // percent of histories with the motif: orders raised, one signer accepts and another rejects them, and a steered enterprise parameter change is proposed while they are undecided
+	PGovSendSwitch  int      // percent of governance blocks that carry the bank transfer switch for one denomination (mostly off, sometimes on again) instead of a parameter change
 	PGovRaise       int      // percent of governance blocks that carry, instead of a parameter change, a purchase order raised by the governance account itself (whitelisted first)
 	EntSteerBoth    bool     // valid enterprise parameter patches are always steered, preferably so that both quorums hold at once
 	PAmino          int      // percent of txs signed in the legacy amino-JSON mode
@@ -672,6 +673,9 @@ func GenScenario(t *rapid.T, p *Profile) *Scenario {
 			if pct(t, p.PGovRaise, "govRaise") {
 				blk.Txs = append(blk.Txs, Tx{Ops: []Op{{Kind: EntWL, Actor: -1, Named: -1, Flag: true, N: uint64(uniRange(t, 0, 3, "govWLSigner")), Peer: nAcc + 3}}})
 				op = Op{Kind: EntRaise, Actor: -1, Named: -1, Rule: 9, Amt: genAmount(t, false, "govRaiseAmt")}
+			}
+			if pct(t, p.PGovSendSwitch, "govSendSwitch") {
+				op = Op{Kind: BankSendEnabled, Actor: -1, Named: -1, Denom: pick(t, []int{0, 0, 1, 2}, "switchDenom"), Flag: oneIn(t, 4, "switchOn")}
 			}
 			blk.Txs = append(blk.Txs, Tx{Ops: []Op{op}, Wrap: WrapGov})
 		}
